@@ -169,11 +169,15 @@ def run(tier, replay=None):
         with open(os.path.join(tw, "psc_trace.ndjson"), "w") as f:
             for ln in lines:
                 f.write(json.dumps(ln) + "\n")
-        tv = vlib.run_tlc("PsCreateTrace", "PsCreateTrace.cfg", workdir=tw, workers=1, timeout=300)
+        try:
+            tv = vlib.run_tlc("PsCreateTrace", "PsCreateTrace.cfg", workdir=tw, workers=1, timeout=300)
+            accepted, why = bool(tv.ok), (tv.violation or "trace not accepted")
+        except vlib.Infra as e:
+            accepted, why = False, "trace not accepted" if "TraceAccepted" in str(e) else str(e)[-300:]
         sim_report["steps_validated_against_PsCreate"] = len(lines)
-        sim_report["accepted_by_PsCreate"] = bool(tv.ok)
-        if not tv.ok and intact and outb.get("rc") == 0:
-            print("NOTE model-drift: the steps of the two processes are not a behaviour of spec/PsCreate.tla (%s)" % (tv.violation or "trace not accepted"))
+        sim_report["accepted_by_PsCreate"] = accepted
+        if not accepted and intact and outb.get("rc") == 0:
+            print("NOTE model-drift: the steps of the two processes are not a behaviour of spec/PsCreate.tla (%s)" % why)
         sim_report.update({"second_held_the_lock": held, "first_exit": outa.get("rc"), "second_alive_when_first_exited": b_alive,
                            "pipestance_intact_then": intact, "second_exit": outb.get("rc")})
         if held and b_alive:
